@@ -314,6 +314,9 @@ func (fc *FuncCtx) atAsserts(c *ssa.CallCommon, args []TV, st *State, reach stri
 				vars[fmt.Sprintf("arg%d", k)] = a
 			}
 			env = fc.envFor(st, vars)
+			// old(...) in a rule of the top function is the top function's entry, also at a site inside an
+			// inlined helper
+			env.old = t.s0
 		}
 		var tt string
 		if err := catchTr(fmt.Sprintf("%s at-rule %d", t.fnName, i), func() { tt = env.trBool(r.C.E) }); err != nil {
@@ -385,6 +388,7 @@ func (fc *FuncCtx) runGhostSets(in ssa.Instruction, st *State, reach string) *St
 	}
 	st = st.clone()
 	env := fc.envFor(st, vars)
+	env.old = t.s0
 	for _, i := range sets {
 		r := t.con.Ats[i]
 		if _, ok := fc.eng.cs.Spec.Ghosts[r.Set]; !ok {
